@@ -20,7 +20,13 @@ def sh(*a, **k):
 def main():
     src, sid, prop = sys.argv[1], sys.argv[2], sys.argv[3]
     keep = "--keep" in sys.argv
+    race = "--race" in sys.argv
     demo = open(os.path.join(src, "demo_test.go")).read()
+    demo_args = ["go", "test", "-vet=off", "-count=1"]
+    if race:
+        # demonstrations of data races run alone, under the race detector
+        tm = re.search(r"^func (Test\w+)\(", demo, re.M)
+        demo_args = ["go", "test", "-race", "-vet=off", "-count=1"] + (["-run", "^" + tm.group(1) + "$"] if tm else [])
     m = re.match(r"//\s*dir:\s*(\S+)", demo)
     ddir = m.group(1) if m else "."
     tmp = tempfile.mkdtemp(prefix="nfpm-seeded-")
@@ -31,7 +37,7 @@ def main():
         assert r.returncode == 0, r.stderr
         dst = os.path.join(wt, ddir, "zz_seeded_demo_test.go")
         shutil.copy(os.path.join(src, "demo_test.go"), dst)
-        r = sh("go", "test", "-vet=off", "-count=1", "./" + ddir, cwd=wt)
+        r = sh(*demo_args, "./" + ddir, cwd=wt)
         res["demo_passes_pristine"] = r.returncode == 0
         if r.returncode != 0:
             res["pristine_output"] = (r.stdout + r.stderr)[-1500:]
@@ -49,7 +55,7 @@ def main():
         if r.returncode != 0:
             res["suite_output"] = (r.stdout + r.stderr)[-1500:]
         shutil.copy(os.path.join(src, "demo_test.go"), dst)
-        r = sh("go", "test", "-vet=off", "-count=1", "./" + ddir, cwd=wt)
+        r = sh(*demo_args, "./" + ddir, cwd=wt)
         res["demo_fails_with_patch"] = r.returncode != 0
         os.remove(dst)
         built = sh(os.path.join(verif, "bin/nfpmcheck"), "-list").stdout.split()
@@ -72,7 +78,7 @@ def main():
             meta = {"id": sid, "breaks_property": prop, "demo_dir": ddir,
                     "needs_to_manifest": "see NOTES.md",
                     "confirmed": {"demo_passes_on_pristine_HEAD": True, "suite_passes_with_patch": True, "demo_fails_with_patch": True,
-                                  "how": "tools/eval_seeded.py in a scratch worktree of /repo HEAD (go test -vet=off -count=1 ./...; go test ./<demo dir>)"},
+                                  "how": "tools/eval_seeded.py in a scratch worktree of /repo HEAD (go test -vet=off -count=1 ./...; " + " ".join(demo_args) + " ./<demo dir>)"},
                     "checks_fired_quick": fired, "caught_by_own_property": prop in fired}
             json.dump(meta, open(os.path.join(out, "meta.json"), "w"), indent=1)
     finally:
